@@ -101,6 +101,7 @@ func planSuite(maxLen int) hlib.Suite {
 					r.Eval()
 					now := T0.Add(off)
 					input := fmt.Sprintf("stages=%v stage-start-given=%v now=stage-start%+d ns", l, withStart, int64(off))
+					r.SampleCase(input)
 					var plan *file.RunnableStages
 					var err error
 					if p, pv := hlib.Catch(func() { plan, err = file.ParseConfigFile([]byte(doc), now) }); p || err != nil {
@@ -254,6 +255,7 @@ func defaultsSuite(withGaussian bool) hlib.Suite {
 					doc = strings.Replace(doc, "default:\n\n", "", 1)
 				}
 				input := fmt.Sprintf("mode=%s sources=%v", mode, src)
+				r.SampleCase(input)
 				r.Eval()
 				plan, err := file.ParseConfigFile([]byte(doc), T0)
 				if err != nil || len(plan.VerifStages()) != 1 {
